@@ -23,6 +23,7 @@ CLAUSES = {
     "direct:overwrite": "kept_until_acked",  # a new request saved over a stored, unacknowledged packet
     "direct:reset": "kept_until_acked",      # Session.Reset on a client that did not ask for a clean session
     "direct:resend": "resend_on_connect",    # CONNACK accepted but AllPackets(Outgoing) never asked for
+    "direct:closed_means_quiet": "future_total",  # something of a client still runs after its Close/Disconnect returned
     "direct:delivery": "future_total",
     "direct:ackheld": "future_total",
     "store_before_send": "store_before_send",
